@@ -32,6 +32,11 @@ def gen_cases(seed, tier):
     for s in docgen.exhaustive(docgen.SYM_LEGACYVERB, 3 if tier == 'quick' else 4):
         for tol in (False, True):
             cases.append(PC.mk_case('legacyverb', s, tol, 'legacyverb'))
+    # \\verb with whitespace (blank lines included) in front of its delimiter, the starred form, delimiters that are
+    # letters or whitespace (modelled: default context)
+    for t in docgen.exhaustive(['|', '+', 'a', ' ', '\n', '\n\n', '*', '\\verb'], 4):
+        for tol in (False, True):
+            cases.append(PC.mk_case('default', '\\verb' + t, tol, 'verb-macro'))
     # embellishment arguments e{^_} (markers repeated and interleaved) and token arguments (real code only)
     r3 = random.Random(seed + 78)
     for s in docgen.exhaustive(['\\ten{T}', '^', '_', '{a}', 'x', ' '], 4 if tier == 'quick' else 5):
